@@ -466,6 +466,32 @@ func NameChan[T any](ch <-chan T, name string) *ChanState {
 	return s
 }
 
+// PeekChan finds the channel kept in the (unexported) field of the struct obj
+// points to and names it, without calling any method of obj; nil if there is no
+// such field. Harnesses use it to let their monitors know a discipline's
+// channels before any accessor has been called.
+//
+//go:norace
+func PeekChan(obj any, field, name string) *ChanState {
+	v := reflect.ValueOf(obj)
+	for v.Kind() == reflect.Pointer || v.Kind() == reflect.Interface {
+		if v.IsNil() {
+			return nil
+		}
+		v = v.Elem()
+	}
+	if v.Kind() != reflect.Struct {
+		return nil
+	}
+	f := v.FieldByName(field)
+	if !f.IsValid() || f.Kind() != reflect.Chan || f.IsNil() {
+		return nil
+	}
+	s := W.stateOf(f.UnsafePointer(), f.Cap())
+	s.Name = name
+	return s
+}
+
 //go:norace
 func StateOf[T any](ch <-chan T) *ChanState { return W.stateOf(chanPtr(ch), cap(ch)) }
 
